@@ -307,6 +307,16 @@ Definition to_wire_compress (n : name) (origin : option name) (canon : bool)
        | None => Lib eNeedAbsolute
        end.
 
+(* Name.to_wire(file, compress=None, origin, canonicalize): the file-writing branch without a
+   table.  Every iteration still builds Name(labels[i:]), so n ++ origin is validated. *)
+Definition to_wire_file (n : name) (origin : option name) (canon : bool) : res (list Z) :=
+  if is_absolute n then Ok (wire_labels canon n)
+  else match origin with
+       | Some o => if is_absolute o then do nm <- mk_name (n ++ o); Ok (wire_labels canon nm)
+                   else Lib eNeedAbsolute
+       | None => Lib eNeedAbsolute
+       end.
+
 (* ---------- wire: decoding (dns.wirebase.Parser + from_wire_parser) ---------- *)
 Record pst := { cur : nat; furthest : nat }.
 
@@ -663,6 +673,10 @@ Definition run (c : obs) : obs :=
   | L [I 16; L a; o; I rel] =>
       match name_of_obs a, oname_of_obs o with
       | Some a, Some o => obs_of_res obs_of_name (choose_relativity a o (rel =? 1))
+      | _, _ => E eBadCase end
+  | L [I 25; L a; o; I canon] =>
+      match name_of_obs a, oname_of_obs o with
+      | Some a, Some o => obs_of_res B (to_wire_file a o (canon =? 1))
       | _, _ => E eBadCase end
   | L [I 24; B w; I off; o] =>
       match oname_of_obs o with
